@@ -2,8 +2,12 @@ import random
 from vlib import *
 import stage_lin, stage_ff
 
-def run_oracle(chk, rng, ncases, task, name, grounds):
+import re
+def run_oracle(chk, rng, ncases, task, name, grounds, probes=()):
     cases = stage_lin.gen_cases(rng, ncases, grounds=grounds)
+    for k, f in enumerate(probes):
+        # inputs of recorded findings are always exercised
+        cases.append(dict(id=10 ** 6 + k, seed=1, spec=json.load(open(f)), fixed_sources=True))
     shards = [cases[k::NCPU] for k in range(NCPU) if cases[k::NCPU]]
     res = run_workers(task, [dict(cases=s) for s in shards])
     n = skipped = 0
@@ -27,7 +31,11 @@ def run_oracle(chk, rng, ncases, task, name, grounds):
                          sample=dict(oracle=name, family=x['spec']['family'],
                                      env='free' if x['spec']['media'] is None else ('ideal' if not x['spec']['media'] else 'real')))
             for b in x['bad']:
-                chk.violation(dict(stage=name, what=b.split(':')[0][:48]), b, x['spec'])
+                sig = dict(stage=name, what=re.sub(r'-?\d+(\.\d+)?', '#', b.split(':')[0])[:48])
+                for fk, fv in (x.get('features') or {}).items():
+                    if fv:
+                        sig = dict(stage=name, **{fk: True})
+                chk.violation(sig, b, x['spec'])
     chk.stages[name] = dict(cases=n, skipped_outside_domain=skipped)
     if stats:
         chk.stages[name]['imbalance_min_max_percent'] = [round(100 * min(stats), 3), round(100 * max(stats), 3)]
